@@ -265,7 +265,9 @@ func Program(w *WF, rt *Runtime) {
 	// state of the library is re-initialised (generated by the rewriter)
 	sp.SimResetGlobals()
 	components.SimResetGlobals()
-	sp.InitLogError()
+	if !w.FullLogging {
+		sp.InitLogError()
+	}
 	wf := Build(w, rt)
 	switch {
 	case len(w.RunTo) == 0:
